@@ -20,8 +20,29 @@ def main():
 
     mod = importlib.import_module(f"props.{prop.lower()}")
     if args.replay:
+        # replay of a recorded violation against the current tree: the named obligation is regenerated from the current
+        # source (the whole property is re-run, its obligations are generated from /repo as it is now) and re-decided
         data = json.load(open(args.replay))
-        sys.exit(mod.replay(data) if hasattr(mod, "replay") else 3)
+        target = (data.get("obligation") or "").split("#")[0]
+        from pyvc.vc import Session
+        import traceback
+
+        ses = Session(prop, tier=args.tier, seed=seed, checker_cmd=f"./check {prop} --replay {args.replay}")
+        try:
+            mod.run(ses)
+        except Exception:
+            ses.crashed = traceback.format_exc()
+        hits = [o for o in ses.obligations if o.id.split("#")[0] == target]
+        failing = [o for o in hits if o.status == "failed"]
+        print(f"[{prop}] replay of {target}: regenerated {len(hits)} obligation(s), {len(failing)} failing")
+        if data.get("input") is not None:
+            print(f"  recorded input: {json.dumps(data.get('input'))[:300]}")
+            print(f"  recorded observed: {json.dumps(data.get('observed'))[:300]}  expected: {json.dumps(data.get('expected'))[:200]}")
+        if failing or (not hits and ses.crashed):
+            print(f"VIOLATION property={prop} replay={args.replay} obligation={target}"
+                  + ("" if any((o.replay or {}).get("confirmed_on_real_code") for o in failing) else " no-failing-input-found"))
+            sys.exit(1)
+        sys.exit(0)
     code = run_property(prop, mod.run, args.tier, seed)
     sys.exit(code)
 
